@@ -44,8 +44,8 @@ T = {
     change="x/perpetual/keeper/open_consolidate.go: CheckLowPoolHealthAndMinimumCustody skipped for pure collateral top-ups",
     needs="leverage-0 top-up of a LONG with base-currency collateral; recorded long custody already close to the amm pool's balance; "
           "shorts whose liabilities exceed the position's custody; pool health still above the threshold",
-    caught_by="see catch matrix in DESIGN.md §0.5",
-    history="see DESIGN.md §0.5"),
+    caught_by="C09.custody_backed in scenario c09-saturated-pool-topups (pool driven to saturation by low-leverage longs, then top-ups of decreasing size)",
+    history="MISSED at first (random histories never saturate a pool); saturation scenario, whale histories and top-ups aimed at existing positions added; caught since (by the scenario; random whale histories did not reach it in 4 x 300 steps)"),
  "C11-1": dict(
     change="x/perpetual/keeper/open_consolidate.go: hooks skipped when the added piece has no liabilities",
     needs="a pure collateral top-up (MsgOpen leverage 0 on an existing position): pool balance changes but the accounted pool is not refreshed",
@@ -66,6 +66,56 @@ T = {
     needs="cancel/execute a spot order that is not the newest, then create another: the new order reuses a live order's id and escrow account",
     caught_by="C20.cancel_returns_all (and escrow book correspondence) in hist mode",
     history="caught at first run"),
+ "C03-1": dict(
+    change="x/amm/types/pow_approx.go computeLn: `yPower.MulMut(y)` instead of `yPower = yPower.Mul(y)` (yPower aliases y)",
+    needs="weighted pool with a fractional weight ratio other than x.5 and a single exact-out swap taking more than half of the out reserve (power base >= 2, exp-log path)",
+    caught_by="C03.pow_spec (Go Pow vs the Lean port and its error bound) and C03.weighted_within_1e8, mode c03",
+    history="caught at first run"),
+ "C05-1": dict(
+    change="x/amm/types/pool_join_pool.go JoinPool: single-asset shares computed on the per-block snapshot instead of the live pool",
+    needs="non-oracle pool; single-asset join; an earlier operation on the same pool in the same block (snapshot differs from the pool)",
+    caught_by="C05.single_join_within_1e8 in mode c05 with a block snapshot argument that differs from the pool",
+    history="MISSED at first (the harness passed the pool itself as its snapshot); perturbed snapshots added (the minted shares must not depend on it); caught since"),
+ "C07-1": dict(
+    change="x/stablestake/keeper/msg_server_bond.go Bond: rate read from the cached params.RedemptionRate instead of GetRedemptionRate",
+    needs="interest booked into TotalValue by a Borrow/Repay after the last begin-block refresh of the cached rate, then a Bond before the next refresh",
+    caught_by="C07.bond_unbond, C07.others_unharmed, C07.rate_mono in mode c07 (real msg server, op sequences with repay-then-bond)",
+    history="caught at first run"),
+ "C10-1": dict(
+    change="x/perpetual/keeper/open_consolidate.go: health check of the consolidated position skipped when the new leg has no liabilities",
+    needs="a position already at or below the safety factor that nobody liquidated yet; its owner tops it up (leverage 0) with too little collateral to restore it",
+    caught_by="C10.open_healthy in mode c10 (consolidating re-opens during the probe rounds)",
+    history="MISSED at first (opens only in the set-up phase); re-opens from dust to large on positions near the safety factor added; caught since"),
+ "C14-1": dict(
+    change="x/commitment/keeper/msg_server_claim_vesting.go: the clamp after a partial cancel rewritten so that ClaimedAmount is written back lower",
+    needs="vest, claim, partial cancel that drops the schedule below what was released, a claim inside the catch-up window, a later claim",
+    caught_by="C14.complete, C14.conservation in mode c14 (op sequences on the real msg server vs the Lean vesting model)",
+    history="caught at first run"),
+ "C15-1": dict(
+    change="x/commitment/keeper/msg_server_claim_vesting.go: MintCoins(newClaims) instead of only the ELYS part",
+    needs="a governance-registered vesting schedule for a non-ELYS denom; one account with both an Eden vesting and a liquid-token vesting, both releasing in one MsgClaimVesting",
+    caught_by="C15.mint_burn_sites and C15.external_conserved in hist mode (focus cm.)",
+    history="MISSED at first (no liquid-token vesting in the world or grammar); uatom vesting schedule + cm.vestLiquid + cm-focused runs added; caught since"),
+ "C16-1": dict(
+    change="x/oracle/keeper/abci.go EndBlock: expiry sweep skips the remaining entries of an asset once a live price was seen",
+    needs="one asset fed by two sources, the earlier-sorting source live, the later-sorting (preferred) source stale",
+    caught_by="C16.expired_served in mode c16",
+    history="caught at first run"),
+ "C17-1": dict(
+    change="x/assetprofile/keeper/msg_server_entry.go: the two authority checks folded into one helper with && instead of ||",
+    needs="an entry whose recorded Authority is not governance (genesis import, pool share entries), signed by exactly that address",
+    caught_by="regenerated handler table no longer proves Props/C17 (broken obligation) + C17.refused with a concrete input (recordedOwner probe)",
+    history="caught at first run as a broken proof obligation with no failing input; recordedOwner probes (objects recorded as owned by an ordinary account) added, now reported with the failing message"),
+ "C18-1": dict(
+    change="app/app.go BlockedModuleAccountAddrs: the wrong ICS consumer account is un-blocked, cons_to_send_to_provider stays blocked",
+    needs="Eden inflation on, provider portion > 0, a second ten-day epoch start with a positive vesting claim for the provider account: bank refuses the send, the epochs begin-blocker panics",
+    caught_by="C18.block_ok in hist fault mode in the inflation world",
+    history="MISSED at first (no inflation configured in any world); inflation variant added - which at once exposed a genuine defect of the unchanged code (fix e07ea76); caught since"),
+ "C19-1": dict(
+    change="x/amm/types/pow_approx.go exponentialLogarithmicMethod: lnBase.MulMut(exp) overwrites the package-level ln2 constant when base == 2",
+    needs="unequal-weight pool with a fractional exponent; an operation (even a refused one) with power base exactly 2; then a process that never evaluated it (restart) executing a swap with base outside [0.5, 2)",
+    caught_by="C19.replicas_agree in mode c19 (fourth replica executed by a fresh OS process per block)",
+    history="MISSED at first (all replicas shared one process, hence the corrupted global); fresh-process replica and exact-half / whale swaps on the weighted pool added; caught since"),
 }
 
 root = os.path.join(os.path.dirname(os.path.dirname(os.path.abspath(__file__))), "seeded")
